@@ -14,6 +14,8 @@ pub struct ScriptCfg {
     pub saves: bool,
     pub resets: bool,
     pub continue_max: bool,
+    /// also jump into function knots (abuse; C04 only)
+    pub jump_functions: bool,
 }
 
 pub fn rand_val(rng: &mut Rng) -> Val {
@@ -25,6 +27,11 @@ pub fn rand_val(rng: &mut Rng) -> Val {
         4 => Val::Str(rng.pick(&["", "x", "héllo", "a b", "\"q\"", "7"]).to_string()),
         _ => Val::Int(rng.range(0, 5) as i32),
     }
+}
+
+pub fn is_function(prog: &Program, knot: &str) -> bool {
+    prog.info.functions.iter().any(|f| f == knot)
+        || (prog.kind == "generated" && (knot.starts_with("fn") || knot.starts_with("ext") || knot.starts_with("fv_")))
 }
 
 pub const FLOW_NAMES: &[&str] = &["fa", "fb", "fc"];
@@ -41,13 +48,14 @@ pub fn gen_script(rng: &mut Rng, prog: &Program, cfg: &ScriptCfg) -> Vec<Op> {
                 2 => ops.push(Op::SwitchDefault),
                 _ => ops.push(Op::RemoveFlow(rng.pick(FLOW_NAMES).to_string())),
             }
-            if !info.knots.is_empty() && rng.chance(2, 3) {
-                ops.push(Op::Jump { path: rng.pick(&info.knots).clone(), reset: rng.chance(1, 2), args: vec![] });
+            let ks: Vec<&String> = info.knots.iter().filter(|k| cfg.jump_functions || !is_function(prog, k)).collect();
+            if !ks.is_empty() && rng.chance(2, 3) {
+                ops.push(Op::Jump { path: (*rng.pick(&ks)).clone(), reset: rng.chance(1, 2), args: vec![] });
             }
         }
         if cfg.jumps && rng.chance(1, 8) {
-            let mut targets: Vec<&String> = info.knots.iter().collect();
-            targets.extend(info.stitches.iter());
+            let mut targets: Vec<&String> = info.knots.iter().filter(|k| cfg.jump_functions || !is_function(prog, k)).collect();
+            targets.extend(info.stitches.iter().filter(|k| cfg.jump_functions || !is_function(prog, k.split('.').next().unwrap_or(""))));
             if !targets.is_empty() {
                 let t = (*rng.pick(&targets)).clone();
                 let nargs = if rng.chance(1, 4) { rng.below(3) } else { 0 };
